@@ -67,6 +67,23 @@ func horizon(c Case) time.Duration {
 	return 2 * time.Minute
 }
 
+// census is bubble.Census; where the scenario itself leaves harness endpoints open for good
+// (the stalled end of a half-closed connection never closes), their reader goroutines are
+// the harness's, not socketace's, and are left out.
+func census(c Case) []string {
+	all := bubble.Census()
+	if !strings.HasSuffix(c.Closer, "-stalled") {
+		return all
+	}
+	var out []string
+	for _, e := range all {
+		if !strings.HasPrefix(e, "github.com/bokysan/socketace/v2/verifharness/world.NewEndpoint @") {
+			out = append(out, e)
+		}
+	}
+	return out
+}
+
 func execute(t *testing.T, c Case, n int) (rr runResult) {
 	res := bubble.Run(t, func() {
 		w, err := world.New(world.Options{Carrier: c.Carrier, Channels: []string{"x"}})
@@ -75,7 +92,7 @@ func execute(t *testing.T, c Case, n int) (rr runResult) {
 			return
 		}
 		bubble.Wait()
-		rr.baseline = snap{bubble.Census(), nil}
+		rr.baseline = snap{census(c), nil}
 		refusedSoFar := 0
 		one := func(i int) (*world.Endpoint, *world.Endpoint, bool) {
 			if c.Closer == "refused" {
@@ -119,6 +136,37 @@ func execute(t *testing.T, c Case, n int) (rr runResult) {
 			if c.Closer == "refused" {
 				return
 			}
+			if c.Closer == "target-halfclose-stalled" || c.Closer == "app-halfclose-stalled" {
+				// one end stops reading while the other end's data towards it exceeds every buffer,
+				// then half-closes its own sending direction; the peer sees the end of stream and
+				// closes. The stalled end never reads again and never closes: what socketace holds
+				// for this connection must be reclaimed all the same.
+				stalled, other := tg, app
+				if c.Closer == "app-halfclose-stalled" {
+					stalled, other = app, tg
+				}
+				stalled.Pause()
+				big := 2 << 20
+				if c.Carrier == "dns" {
+					big = 128 << 10
+				}
+				other.StartWrite(world.Payload(3, 0, big))
+				bubble.Wait()
+				if c.Carrier == "dns" {
+					bubble.Advance(30 * time.Second)
+				}
+				stalled.C.CloseWrite()
+				bubble.Wait()
+				if c.Carrier == "dns" {
+					bubble.Advance(30 * time.Second)
+				}
+				other.Close()
+				bubble.Wait()
+				if c.Carrier == "dns" {
+					bubble.Advance(30 * time.Second)
+				}
+				return
+			}
 			if c.Closer == "app" {
 				app.Close()
 			} else {
@@ -159,7 +207,7 @@ func execute(t *testing.T, c Case, n int) (rr runResult) {
 			}
 		}
 		bubble.Advance(5 * time.Second)
-		rr.afterConns = snap{bubble.Census(), nil}
+		rr.afterConns = snap{census(c), nil}
 		// end the physical session
 		bubble.ResetStep()
 		cl := w.CarrierClientEnd(0)
@@ -193,7 +241,7 @@ func execute(t *testing.T, c Case, n int) (rr runResult) {
 		}
 		bubble.Wait()
 		bubble.Advance(horizon(c))
-		rr.afterEnd = snap{bubble.Census(), w.OpenTracked()}
+		rr.afterEnd = snap{census(c), w.OpenTracked()}
 	})
 	if res.Panic != "" {
 		rr.fail, rr.detail = "panic", res.Panic
@@ -268,9 +316,12 @@ func cases(_ bool) []Case {
 		}
 		for _, ending := range endings {
 			for _, overlap := range []bool{false, true} {
-				for _, closer := range []string{"app", "target", "refused"} {
+				for _, closer := range []string{"app", "target", "refused", "target-halfclose-stalled", "app-halfclose-stalled"} {
 					for _, data := range []int{0, 3000} {
 						if closer == "refused" && (data != 0 || overlap) {
+							continue
+						}
+						if strings.HasSuffix(closer, "-stalled") && (data != 0 || ending != "client-shutdown") {
 							continue
 						}
 						out = append(out, Case{carrier, overlap, closer, data, ending})
